@@ -24,7 +24,8 @@ PrioExact == (T.kind = "prio" /\ T.exact) =>
       LET want == IF T.fn = "lap" THEN QMax(T.x[k], T.p) ELSE QAdd(T.x[k], T.p)
       IN QEq(<<T.y[k][1], T.y[k][2]>>, want)
 
-(* kind "weights": batch priorities p (naturals), weight ordinals wo, ordinals of 0 and 1 *)
+(* kind "weights": batch priorities p (naturals, in units of 1/T.unit of the initial maximum priority: unit 8 = *)
+(* every stored priority at or below 1.0), weight ordinals wo, ordinals of 0 and 1                              *)
 WeightsRange == T.kind = "weights" => \A k \in 1..Len(T.wo) : T.wo[k] > T.zero /\ T.wo[k] <= T.one
 WeightsMaxOne == T.kind = "weights" => \E k \in 1..Len(T.wo) : T.wo[k] = T.one
 WeightsAntitone == T.kind = "weights" =>
